@@ -37,12 +37,17 @@ static int process_data(xfrm_stream_t *stream, const void *in,
 	xfrm_zstd_t *zstd = (xfrm_zstd_t *)stream;
 	ZSTD_outBuffer out_desc;
 	ZSTD_inBuffer in_desc;
+	bool finished = false;
 	size_t ret;
 
 	if (flush_mode < 0 || flush_mode >= XFRM_STREAM_FLUSH_COUNT)
 		flush_mode = XFRM_STREAM_FLUSH_NONE;
 
-	while (in_size > 0 && out_size > 0) {
+	/* when finishing a compressed stream, keep going after the input is
+	   used up, until everything the compressor holds back is written */
+	while ((in_size > 0 ||
+		(zstd->compress && flush_mode == XFRM_STREAM_FLUSH_FULL &&
+		 !finished)) && out_size > 0) {
 		memset(&in_desc, 0, sizeof(in_desc));
 		in_desc.src = in;
 		in_desc.size = in_size;
@@ -66,6 +71,11 @@ static int process_data(xfrm_stream_t *stream, const void *in,
 		if (!zstd->compress)
 			zstd->dec_pending = ret;
 
+		if (zstd->compress && ret == 0 &&
+		    flush_mode == XFRM_STREAM_FLUSH_FULL) {
+			finished = true;
+		}
+
 		in = (const char *)in + in_desc.pos;
 		in_size -= in_desc.pos;
 		*in_read += in_desc.pos;
@@ -80,6 +90,12 @@ static int process_data(xfrm_stream_t *stream, const void *in,
 			/* end of input in the middle of a frame */
 			if (!zstd->compress && zstd->dec_pending != 0)
 				return XFRM_STREAM_ERROR;
+
+			/* output buffer full, frame not completely flushed */
+			if (zstd->compress && !finished &&
+			    flush_mode == XFRM_STREAM_FLUSH_FULL) {
+				return XFRM_STREAM_OK;
+			}
 
 			return XFRM_STREAM_END;
 		}
